@@ -6,6 +6,9 @@
        NameStartChar then NameChars, classes read from the generated key expression; value:
        anything but the delimiting quote -- the key expression has no % or & restriction),
        optionally preceded by its attached comment and at most one line break of whitespace,
+     - a parameter-entity declaration with its reference  <!ENTITY % name SYSTEM 'url'> %name;
+       together with what DTDParser.rePE swallows after it (blanks and tabs, comments with
+       their whitespace, one line feed),
    parses (model of DTDParser.getNext / Parser.getNext / walk, through the regex engine on
    the generated expressions) to exactly the entries computed from the blocks by
    [entries_of] ([blocks_dtd]); the entities are the records, the comments the comment
@@ -16,13 +19,22 @@
      - the License rule applies at offsets 0 AND 1 (offset < 2): excluded by [license_okb]
        (that case is C02_license_dtd), with an example that the premise is needed;
      - a comment is standalone when two or more line breaks follow, or when what follows
-       its whitespace is not an entity declaration; otherwise it is attached.
-   Regex-specific: Proofs/C02BlocksDtdRx.v. *)
+       its whitespace is not an entity declaration; otherwise it is attached;
+     - a parameter entity: the reference need not name the declared entity; its value span
+       is the quoted text WITH the quotes (for an ordinary entity: without); the entry
+       extends over the blanks, comments and the ONE line feed (not a carriage return) that
+       rePE swallows; a comment in front of it is never attached to it.
+   Not covered: junk regions (anything that is not one of the four block kinds, e.g. a
+   comment with a double dash inside, a name outside the NameChar classes of the expression,
+   a value with its own delimiting quote); a comment, at most one line break, and a bare
+   declaration can only be written as ONE entity block with an attached comment.
+   Regex-specific: Proofs/C02BlocksDtdRx.v, Proofs/C02BlocksDtdPeRx.v. *)
 From Coq Require Import NArith List Bool Arith Lia.
 From CL Require Import Base.Sx Base.Res Base.Str Regex.Rx Regex.RxLemmas Model.Entry Model.Parse
   Model.ParseFormats Generated.RxParser Proofs.UnescapeProofs
   Proofs.ClassLoop Proofs.ClassLoop2 Proofs.C02Props Proofs.WalkProofs Proofs.C02Roundtrip
-  Proofs.C02BlocksRx Proofs.C02BlocksDtdRx.
+  Proofs.C02BlocksRx Proofs.C02BlocksDtdRx Proofs.C02BlocksDtdPeRx.
+From CL Require Proofs.C02Blocks.
 Import ListNotations.
 
 Local Arguments Nat.ltb : simpl never.
@@ -36,10 +48,13 @@ Local Arguments chr_ok : simpl never.
 Inductive block :=
 | BBlank (w : str)                                   (* whitespace: blanks, tabs, CR, LF *)
 | BComment (body : str)                              (* standalone  <!--body-->  *)
-| BEntity (pre : option (str * str)) (ws1 name ws2 : str) (q : N) (v ws3 : str).
+| BEntity (pre : option (str * str)) (ws1 name ws2 : str) (q : N) (v ws3 : str)
+| BPE (d : pedecl).
     (* [pre = Some (body, iw)]: the attached comment <!--body--> and the whitespace [iw]
        between it and the declaration (at most one line break, may be empty); then
-       <!ENTITY ws1 name ws2 q v q ws3 >  with the quote character [q] (double or single) *)
+       <!ENTITY ws1 name ws2 q v q ws3 >  with the quote character [q] (double or single);
+       [BPE d]: a parameter-entity declaration, its reference and the swallowed tail
+       ([pedecl], [pe_text], [legal_pe], [pe_next_ok] are in C02BlocksDtdPeRx.v) *)
 
 Definition decl_text (ws1 name ws2 : str) (q : N) (v ws3 : str) : str :=
   ENT ++ ws1 ++ name ++ ws2 ++ q :: v ++ q :: ws3 ++ [62%N].
@@ -55,7 +70,9 @@ Definition text (b : block) : str :=
   | BBlank w => w
   | BComment body => comment_text body
   | BEntity pre ws1 name ws2 q v ws3 => pre_text pre ++ decl_text ws1 name ws2 q v ws3
+  | BPE d => pe_text d
   end.
+Definition file_text (bs : list block) : str := concat (map text bs).
 
 Definition is_nil {A} (l : list A) : bool := match l with [] => true | _ => false end.
 
@@ -74,6 +91,7 @@ Definition legal_blockb (b : block) : bool :=
   | BBlank w => negb (is_nil w) && is_ws w
   | BComment body => legal_cbody body
   | BEntity pre ws1 name ws2 q v ws3 => legal_pre pre && legal_decl ws1 name ws2 q v ws3
+  | BPE d => legal_pe d
   end.
 Definition legal_block (b : block) : Prop := legal_blockb b = true.
 
@@ -98,8 +116,10 @@ Definition bare_entity_head (bs : list block) : bool :=
 (* local separation: a standalone comment is followed by whitespace with two or more line
    breaks, or, after its whitespace, by something that is not a bare entity declaration
    (the end of the file, another comment, an entity with its own comment); otherwise the
-   parser attaches it to the declaration.  Whitespace blocks may be adjacent: they merge
-   into one entry. *)
+   parser attaches it to the declaration.  What follows a parameter-entity block must not
+   extend the match of rePE ([pe_next_ok]: after its line feed anything; otherwise no
+   comment, and no whitespace / no blank, tab or line feed).  Whitespace blocks may be
+   adjacent: they merge into one entry. *)
 Definition comment_next_ok (rest : list block) : bool :=
   (2 <=? count_char 10%N (lead_ws rest)) || negb (bare_entity_head (drop_ws rest)).
 
@@ -107,6 +127,7 @@ Fixpoint separatedb (bs : list block) : bool :=
   match bs with
   | [] => true
   | BComment _ :: rest => comment_next_ok rest && separatedb rest
+  | BPE d :: rest => pe_next_ok d (file_text rest) && separatedb rest
   | _ :: rest => separatedb rest
   end.
 
@@ -140,6 +161,11 @@ Definition entity_entry (a : nat) (pre : option (str * str)) (ws1 name ws2 v ws3
      | _ => None
      end).
 
+(* DTDParser.getNext for a parameter entity: no comment, no inner whitespace, and the value
+   span is group val as it is, WITH the quotes *)
+Definition pe_entry (a : nat) (d : pedecl) : entry :=
+  mkentry KEntity (a, a + length (pe_text d)) (Some (pe_key_span d a)) (Some (pe_val_span d a)) None None.
+
 Fixpoint ents (off w : nat) (bs : list block) : list entry :=
   match bs with
   | [] => flush off w
@@ -152,10 +178,12 @@ Fixpoint ents (off w : nat) (bs : list block) : list entry :=
       let a := off + w in
       let e := key_end ws1 name ws2 v ws3 (a + length (pre_text pre)) in
       flush off w ++ entity_entry a pre ws1 name ws2 v ws3 :: ents e 0 rest
+  | BPE d :: rest =>
+      let a := off + w in
+      flush off w ++ pe_entry a d :: ents (a + length (pe_text d)) 0 rest
   end.
 
 Definition entries_of (bs : list block) : list entry := ents 0 0 bs.
-Definition file_text (bs : list block) : str := concat (map text bs).
 
 (* with a byte order mark in front *)
 Definition file_text_bom (mark : bool) (bs : list block) : str :=
@@ -232,6 +260,49 @@ Example ex_dtd_bom : let bs := [ex_e2; ex_b; ex_c] in
 Proof.
   split; [repeat constructor|]. split; [vm_compute; reflexivity|]. split; [vm_compute; reflexivity|].
   split; vm_compute; reflexivity.
+Qed.
+
+(* parameter entities:  <!ENTITY % brand SYSTEM "u">\n%brand;\n  (the line feed belongs to it) *)
+Definition ex_pe1 : block :=
+  BPE (mkpe (A [32]) (A [32]) (A [98; 114; 97; 110; 100]) (A [32]) (A [32]) 34%N (A [117]) [] (A [10])
+            (A [98; 114; 97; 110; 100]) [] [] true).
+(*  <!ENTITY\t%\nx SYSTEM\n'' >%y; \t<!-- c -->\n <!---->   the reference need not name the
+    declared entity; blanks, two comments and the whitespace between them are swallowed  *)
+Definition ex_pe2 : block :=
+  BPE (mkpe (A [9]) (A [10]) (A [120]) (A [32]) (A [10]) 39%N [] (A [32]) [] (A [121]) (A [32; 9])
+            [(A [32; 99; 32], A [10; 32]); ([], [])] false).
+(*  <!ENTITY % z SYSTEM "u">%z;   nothing swallowed  *)
+Definition ex_pe3 : block :=
+  BPE (mkpe (A [32]) (A [32]) (A [122]) (A [32]) (A [32]) 34%N (A [117]) [] [] (A [122]) [] [] false).
+
+Example ex_dtd_pe :
+  let bs := [ex_c; ex_b; ex_pe1; ex_b; ex_pe2; ex_e1; ex_pe3; BBlank (A [13; 10]); ex_e2; ex_pe3] in
+  Forall legal_block bs /\ adjacent_ok bs /\ walk_dtd (file_text bs) = Ok (entries_of bs) /\
+  map (fun e => (e_kind e, e_span e, e_key e, e_val e)) (entries_of bs) =
+  [(KComment, (0, 14), None, None); (KWhitespace, (14, 15), Some (14, 15), Some (14, 15));
+   (KEntity, (15, 52), Some (26, 31), Some (39, 42));
+   (KWhitespace, (52, 53), Some (52, 53), Some (52, 53));
+   (KEntity, (53, 101), Some (64, 65), Some (73, 75));
+   (KEntity, (101, 116), Some (110, 111), Some (113, 114));
+   (KEntity, (116, 143), Some (127, 128), Some (136, 139));
+   (KWhitespace, (143, 145), Some (143, 145), Some (143, 145));
+   (KEntity, (160, 191), Some (170, 177), Some (179, 188));
+   (KEntity, (191, 218), Some (202, 203), Some (211, 214))].
+Proof. split; [repeat constructor|]. split; [vm_compute; reflexivity|]. split; vm_compute; reflexivity. Qed.
+
+(* the separation after a parameter entity is needed: a line feed, a blank or a comment
+   after the reference would be swallowed; a carriage return is not *)
+Example ex_dtd_pe_separation_needed :
+  Forall legal_block [ex_pe3; ex_b] /\ adjacent_okb [ex_pe3; ex_b] = false /\
+  walk_dtd (file_text [ex_pe3; ex_b]) <> Ok (entries_of [ex_pe3; ex_b]) /\
+  adjacent_okb [ex_pe3; ex_c] = false /\
+  walk_dtd (file_text [ex_pe3; ex_c]) <> Ok (entries_of [ex_pe3; ex_c]) /\
+  adjacent_okb [ex_pe2; ex_b] = false /\ adjacent_ok [ex_pe1; ex_b; ex_c] /\
+  adjacent_ok [ex_pe3; BBlank (A [13; 10])].
+Proof.
+  split; [repeat constructor|]. split; [vm_compute; reflexivity|]. split; [vm_compute; discriminate|].
+  split; [vm_compute; reflexivity|]. split; [vm_compute; discriminate|].
+  repeat split; vm_compute; reflexivity.
 Qed.
 
 (* ---- Parser.getNext for the DTD format, case by case ------------------------------------------ *)
@@ -329,7 +400,693 @@ Proof.
   contradiction.
 Qed.
 
+(* Parser.getNext reports Junk where neither a comment, nor whitespace, nor a declaration
+   starts; DTDParser.getNext then tries the parameter-entity expression there *)
+Lemma gnb_junk_kind : forall s off,
+  omatch rx_dtd_comment s off = None -> omatch rx_dtd_ws s off = None ->
+  omatch rx_dtd_key s off = None -> e_kind (gnb s off) = KJunk.
+Proof.
+  intros s off Hc Hw Hk. unfold gnb, get_next_base, the_fmt, fmt_dtd.
+  cbn [f_comment f_ws f_key f_cstyle f_license_below f_create f_junk]. rewrite Hc, Hw, Hk. reflexivity.
+Qed.
+
+Lemma gn_dtd_junk : forall (a rest : str),
+  (a = [] -> head_is (N.eqb bom) rest = false) ->
+  e_kind (gnb (a ++ rest) (length a)) = KJunk ->
+  gn_dtd (a ++ rest) (length a) =
+  match omatch rx_dtd_pe (a ++ rest) (length a) with
+  | Some x => mkentry KEntity (mspan x) (group g_dtd_pe_key x) (group g_dtd_pe_val x) None None
+  | None => gnb (a ++ rest) (length a)
+  end.
+Proof.
+  intros a rest Hb Hk. unfold gn_dtd, get_next_dtd.
+  assert (E : (Nat.eqb (length a) 0 &&
+               match omatch rx_dtd_header (a ++ rest) 0 with Some _ => true | None => false end) = false).
+  { destruct a as [|c a']; [|reflexivity]. rewrite header_at0. cbn [app]. rewrite Hb by reflexivity.
+    reflexivity. }
+  rewrite E. fold the_fmt. fold gnb. rewrite Hk. reflexivity.
+Qed.
+
 Lemma gn_dtd_mark : forall s, head_is (N.eqb bom) s = true -> gn_dtd s 0 = gn_dtd s 1.
 Proof.
   intros s H. unfold gn_dtd, get_next_dtd. rewrite header_at0, H. reflexivity.
 Qed.
+
+(* ---- small facts -------------------------------------------------------------------------------- *)
+Ltac norm_app := repeat (progress (rewrite <- ?app_assoc; cbn [app])).
+
+Lemma ws_head_facts : forall x y, x <> [] -> is_ws x = true ->
+  starts_with COPEN (x ++ y) = false /\ head_is (N.eqb bom) (x ++ y) = false /\
+  starts_with ENT (x ++ y) = false.
+Proof.
+  intros [|c x] y Hne H; [contradiction|]. cbn [is_ws forallb] in H. apply andb_true_iff in H.
+  destruct H as [H _]. apply mem_in in H. simpl in H.
+  destruct H as [<-|[<-|[<-|[<-|[]]]]]; repeat split; reflexivity.
+Qed.
+
+Lemma lt_head_facts : forall y,
+  head_is (N.eqb bom) (60%N :: y) = false /\ head_is (fun c => mem c WS) (60%N :: y) = false.
+Proof. intros y. split; reflexivity. Qed.
+
+Lemma decl_text_app : forall ws1 name ws2 q v ws3 T,
+  decl_text ws1 name ws2 q v ws3 ++ T = ENT ++ ws1 ++ name ++ ws2 ++ q :: v ++ q :: ws3 ++ 62%N :: T.
+Proof. intros. unfold decl_text. norm_app. reflexivity. Qed.
+
+Lemma decl_text_length : forall ws1 name ws2 q v ws3 p,
+  p + length (decl_text ws1 name ws2 q v ws3) = key_end ws1 name ws2 v ws3 p.
+Proof.
+  intros. unfold decl_text, key_end, ENT. rewrite !app_length. cbn [length]. rewrite !app_length.
+  cbn [length]. rewrite !app_length. cbn [length]. lia.
+Qed.
+
+Lemma decl_head : forall ws1 name ws2 q v ws3 T, exists y,
+  decl_text ws1 name ws2 q v ws3 ++ T = 60%N :: 33%N :: 69%N :: y.
+Proof. intros. rewrite decl_text_app. eexists. reflexivity. Qed.
+
+Lemma comment_head : forall body T, exists y, comment_text body ++ T = 60%N :: 33%N :: 45%N :: 45%N :: y.
+Proof. intros. unfold comment_text, COPEN. norm_app. eexists. reflexivity. Qed.
+
+Lemma dtd_entity_caps : forall p e a b c d cc ww,
+  dtd_entity (mkres p e [(2, (a, b)); (1, (c, d))]) cc ww =
+  mkentry KEntity (p, e) (Some (c, d)) (Some (a + 1, b - 1)) cc ww.
+Proof. reflexivity. Qed.
+
+Lemma mkentry_eq : forall k s1 s2 k1 k2 v1 v2 c1 c2 w1 w2,
+  s1 = s2 -> k1 = k2 -> v1 = v2 -> c1 = c2 -> w1 = w2 ->
+  mkentry k s1 k1 v1 c1 w1 = mkentry k s2 k2 v2 c2 w2.
+Proof. intros; subst; reflexivity. Qed.
+
+Lemma pair_eq : forall a b a' b' : nat, a = a' -> b = b' -> (a, b) = (a', b').
+Proof. intros; subst; reflexivity. Qed.
+Lemma some_pair_eq : forall a b a' b' : nat, a = a' -> b = b' -> Some (a, b) = Some (a', b').
+Proof. intros; subst; reflexivity. Qed.
+
+Lemma count_char_app : forall c (x y : str), count_char c (x ++ y) = count_char c x + count_char c y.
+Proof. intros. unfold count_char. rewrite filter_app, app_length. reflexivity. Qed.
+
+(* ---- step: whitespace -------------------------------------------------------------------------- *)
+Lemma gn_white : forall (a x y : str),
+  x <> [] -> is_ws x = true -> head_is (fun c => mem c WS) y = false ->
+  gn_dtd (a ++ x ++ y) (length a) = mk_white (length a, length a + length x).
+Proof.
+  intros a x y Hne Hx Hy. destruct (ws_head_facts x y Hne Hx) as [F1 [F2 F3]].
+  assert (G : gnb (a ++ x ++ y) (length a) = mk_white (length a, length a + length x)).
+  { rewrite (gnb_white _ _ (mkres (length a) (length a + length x) [])); [reflexivity| |].
+    - apply omatch_comment_none. exact F1.
+    - apply omatch_dtd_ws_run; auto. }
+  rewrite gn_dtd_base; [exact G|intros _; exact F2|rewrite G; discriminate].
+Qed.
+
+(* ---- step: a standalone comment ----------------------------------------------------------------- *)
+Lemma gn_comment : forall (a : str) body W Y,
+  legal_cbody body = true -> is_ws W = true -> head_is (fun c => mem c WS) Y = false ->
+  (2 <= count_char 10%N W \/ forall P : str, omatch rx_dtd_key (P ++ Y) (length P) = None) ->
+  gn_dtd (a ++ comment_text body ++ W ++ Y) (length a) =
+  mk_comment (length a, length a + length (comment_text body)).
+Proof.
+  intros a body W Y Hb HW HY Hnext. set (s := a ++ comment_text body ++ W ++ Y).
+  set (L := a ++ comment_text body).
+  assert (EL : length a + length (comment_text body) = length L) by (unfold L; rewrite app_length; reflexivity).
+  destruct (omatch_comment a body (W ++ Y) Hb) as [x [Ec [Hs He]]]. fold s in Ec. rewrite EL in He.
+  assert (Hsp : mspan x = (length a, length L)) by (unfold mspan; rewrite Hs, He; reflexivity).
+  assert (G : gnb s (length a) = mk_comment (length a, length L)).
+  { destruct (license_at s (length a) x) eqn:Lic; [rewrite (gnb_license s _ x Ec Lic), Hsp; reflexivity|].
+    assert (Es : s = L ++ W ++ Y) by (unfold s, L; rewrite <- app_assoc; reflexivity).
+    destruct W as [|c W'] eqn:EW.
+    - (* no whitespace: the key expression is tried directly *)
+      destruct Hnext as [Hn|Hn]; [change (count_char 10%N []) with 0 in Hn; lia|].
+      assert (Ew : omatch rx_dtd_ws s (m_end x) = None)
+        by (rewrite He, Es; apply omatch_dtd_ws_none; exact HY).
+      rewrite (gnb_comment_key s _ x Ec Lic Ew), He, Es. cbn [app].
+      rewrite Hn. rewrite Hsp. reflexivity.
+    - rewrite <- EW in *. assert (Hne : W <> []) by (rewrite EW; discriminate).
+      assert (Ew : omatch rx_dtd_ws s (m_end x) = Some (mkres (length L) (length L + length W) []))
+        by (rewrite He, Es; apply omatch_dtd_ws_run; auto).
+      assert (Esl : slice s (length L) (length L + length W) = W) by (rewrite Es; apply slice_mid).
+      destruct (1 <? count_char 10%N W) eqn:Ect.
+      + rewrite (gnb_comment_alone s _ x _ Ec Lic Ew); [rewrite Hsp; reflexivity|].
+        cbn [m_start m_end]. rewrite Esl. exact Ect.
+      + destruct Hnext as [Hn|Hn]; [apply Nat.ltb_ge in Ect; lia|].
+        rewrite (gnb_comment_ws_key s _ x _ Ec Lic Ew); [|cbn [m_start m_end]; rewrite Esl; exact Ect].
+        cbn [m_end]. assert (Es2 : s = (L ++ W) ++ Y) by (rewrite Es, <- app_assoc; reflexivity).
+        rewrite <- app_length, Es2, Hn. rewrite Hsp. reflexivity. }
+  destruct (comment_head body (W ++ Y)) as [y Ey].
+  unfold s. rewrite gn_dtd_base; fold s.
+  - rewrite G, EL. reflexivity.
+  - intros _. rewrite Ey. reflexivity.
+  - rewrite G. discriminate.
+Qed.
+
+(* ---- step: an entity declaration with its attached comment ------------------------------------- *)
+Lemma legal_decl_facts : forall ws1 name ws2 q v ws3, legal_decl ws1 name ws2 q v ws3 = true ->
+  ws1 <> [] /\ is_ws ws1 = true /\ legal_name name = true /\ ws2 <> [] /\ is_ws ws2 = true /\
+  legal_qval q v = true /\ is_ws ws3 = true.
+Proof.
+  intros ws1 name ws2 q v ws3 H. unfold legal_decl in H.
+  repeat (apply andb_true_iff in H; let H' := fresh "H" in destruct H as [H H']).
+  repeat split; auto.
+  - intro E. subst ws1. discriminate.
+  - intro E. subst ws2. discriminate.
+Qed.
+
+Lemma gn_entity : forall (a : str) pre ws1 name ws2 q v ws3 T,
+  legal_pre pre = true -> legal_decl ws1 name ws2 q v ws3 = true ->
+  (forall body iw, pre = Some (body, iw) -> (length a <? 2) && contains s_License body = false) ->
+  gn_dtd (a ++ pre_text pre ++ decl_text ws1 name ws2 q v ws3 ++ T) (length a) =
+  entity_entry (length a) pre ws1 name ws2 v ws3.
+Proof.
+  intros a pre ws1 name ws2 q v ws3 T Hpre Hdecl Hlic.
+  destruct (legal_decl_facts _ _ _ _ _ _ Hdecl) as [N1 [W1 [Hn [N2 [W2 [Hq W3]]]]]].
+  set (D := decl_text ws1 name ws2 q v ws3 ++ T).
+  assert (ED : D = ENT ++ ws1 ++ name ++ ws2 ++ q :: v ++ q :: ws3 ++ 62%N :: T) by apply decl_text_app.
+  assert (HD1 : starts_with COPEN D = false) by (rewrite ED; reflexivity).
+  assert (HD2 : head_is (fun c => mem c WS) D = false) by (rewrite ED; reflexivity).
+  assert (Hkey : forall P : str, omatch rx_dtd_key (P ++ D) (length P) =
+            Some (mkres (length P) (key_end ws1 name ws2 v ws3 (length P))
+              [(2, (length P + 8 + length ws1 + length name + length ws2,
+                    length P + 8 + length ws1 + length name + length ws2 + 2 + length v));
+               (1, (length P + 8 + length ws1, length P + 8 + length ws1 + length name))])).
+  { intros P. rewrite ED. apply omatch_key; auto. }
+  set (s := a ++ pre_text pre ++ D).
+  assert (G : gnb s (length a) = entity_entry (length a) pre ws1 name ws2 v ws3).
+  { destruct pre as [[body iw]|].
+    - cbn [legal_pre] in Hpre. apply andb_true_iff in Hpre. destruct Hpre as [Hpre Hcnt].
+      apply andb_true_iff in Hpre. destruct Hpre as [Hb Hiw]. apply Nat.leb_le in Hcnt.
+      set (L := a ++ comment_text body).
+      assert (EL : length a + length (comment_text body) = length L)
+        by (unfold L; rewrite app_length; reflexivity).
+      assert (Es0 : s = a ++ comment_text body ++ iw ++ D)
+        by (unfold s; cbn [pre_text]; rewrite <- app_assoc; reflexivity).
+      destruct (omatch_comment a body (iw ++ D) Hb) as [x [Ec [Hs He]]]. rewrite <- Es0 in Ec.
+      rewrite EL in He.
+      assert (Hsp : mspan x = (length a, length L)) by (unfold mspan; rewrite Hs, He; reflexivity).
+      assert (Lic : license_at s (length a) x = false).
+      { unfold license_at. rewrite Hs, He, <- EL, Es0, slice_mid, comment_val_dtd.
+        apply (Hlic body iw eq_refl). }
+      assert (Es : s = L ++ iw ++ D) by (rewrite Es0; unfold L; rewrite <- app_assoc; reflexivity).
+      unfold entity_entry. cbn [pre_text]. rewrite app_length, Nat.add_assoc, EL.
+      destruct iw as [|c iw'] eqn:Eiw.
+      + assert (Ew : omatch rx_dtd_ws s (m_end x) = None)
+          by (rewrite He, Es; apply omatch_dtd_ws_none; exact HD2).
+        rewrite (gnb_comment_key s _ x Ec Lic Ew), He, Es. cbn [app]. rewrite Hkey, dtd_entity_caps, Hsp.
+        cbn [length]. rewrite Nat.add_0_r.
+        apply mkentry_eq; try reflexivity. apply some_pair_eq; lia.
+      + rewrite <- Eiw in *. assert (Hne : iw <> []) by (rewrite Eiw; discriminate).
+        assert (Ew : omatch rx_dtd_ws s (m_end x) = Some (mkres (length L) (length L + length iw) []))
+          by (rewrite He, Es; apply omatch_dtd_ws_run; auto).
+        assert (Esl : slice s (length L) (length L + length iw) = iw) by (rewrite Es; apply slice_mid).
+        assert (Ect : (1 <? count_char 10%N iw) = false) by (apply Nat.ltb_ge; exact Hcnt).
+        rewrite (gnb_comment_ws_key s _ x _ Ec Lic Ew); [|cbn [m_start m_end]; rewrite Esl; exact Ect].
+        cbn [m_end]. assert (Es2 : s = (L ++ iw) ++ D) by (rewrite Es, <- app_assoc; reflexivity).
+        rewrite <- app_length, Es2, Hkey, dtd_entity_caps, Hsp. unfold mspan. cbn [m_start m_end].
+        rewrite app_length.
+        apply mkentry_eq; try reflexivity. apply some_pair_eq; lia.
+    - unfold s. cbn [pre_text app].
+      rewrite (gnb_bare _ _ _ (omatch_comment_none a D HD1) (omatch_dtd_ws_none a D HD2) (Hkey a)).
+      rewrite dtd_entity_caps. unfold entity_entry. cbn [pre_text length]. rewrite Nat.add_0_r.
+      apply mkentry_eq; try reflexivity. apply some_pair_eq; lia. }
+  unfold s. rewrite gn_dtd_base; fold s.
+  - exact G.
+  - intros _. destruct pre as [[body iw]|].
+    + cbn [pre_text]. rewrite <- app_assoc. destruct (comment_head body (iw ++ D)) as [y Ey].
+      rewrite Ey. reflexivity.
+    + cbn [pre_text app]. rewrite ED. reflexivity.
+  - rewrite G. discriminate.
+Qed.
+
+(* ---- step: a parameter entity ------------------------------------------------------------------- *)
+Lemma pe_head : forall d Y, exists y, pe_text d ++ Y = 60%N :: 33%N :: 69%N :: y.
+Proof. intros. rewrite pe_text_app. eexists. reflexivity. Qed.
+
+Lemma gn_pe : forall (a : str) d Y, legal_pe d = true -> pe_next_ok d Y = true ->
+  gn_dtd (a ++ pe_text d ++ Y) (length a) = pe_entry (length a) d.
+Proof.
+  intros a d Y Hleg Hnext. destruct (pe_head d Y) as [y Ey].
+  assert (Hk : e_kind (gnb (a ++ pe_text d ++ Y) (length a)) = KJunk).
+  { apply gnb_junk_kind.
+    - apply omatch_comment_none. rewrite Ey. reflexivity.
+    - apply omatch_dtd_ws_none. rewrite Ey. reflexivity.
+    - apply omatch_key_none_pe. exact Hleg. }
+  rewrite gn_dtd_junk; [|intros _; rewrite Ey; reflexivity|exact Hk].
+  rewrite omatch_pe by assumption. reflexivity.
+Qed.
+
+(* ---- the walk ------------------------------------------------------------------------------------ *)
+Lemma walk_step : forall fuel s off es,
+  off < length s ->
+  walk_loop (stateless gn_dtd) fuel tt s (snd (e_span (gn_dtd s off))) = Ok es ->
+  walk_loop (stateless gn_dtd) (S fuel) tt s off = Ok (gn_dtd s off :: es).
+Proof.
+  intros fuel s off es Hoff H. rewrite walk_loop_S.
+  replace (off <? length s) with true by (symmetry; apply Nat.ltb_lt; exact Hoff).
+  unfold stateless at 1. rewrite H. reflexivity.
+Qed.
+
+(* the invariant: [a] has been consumed, the whitespace [w] is pending *)
+Definition stmt (bs : list block) (a w : str) : Prop :=
+  license_okb (length a + length w) bs = true ->
+  forall fuel, length (a ++ w ++ file_text bs) - length a < fuel ->
+  walk_loop (stateless gn_dtd) fuel tt (a ++ w ++ file_text bs) (length a) =
+  Ok (ents (length a) (length w) bs).
+
+Definition nonblank_head (bs : list block) : Prop :=
+  match bs with BBlank _ :: _ => False | _ => True end.
+
+Lemma ents_flush : forall bs off w, nonblank_head bs ->
+  ents off w bs = flush off w ++ ents (off + w) 0 bs.
+Proof.
+  intros [|[x|body|pre ws1 name ws2 q v ws3|d] rest] off w H; try contradiction; simpl;
+    rewrite ?Nat.add_0_r, ?app_nil_r; reflexivity.
+Qed.
+
+Lemma file_text_cons : forall b bs, file_text (b :: bs) = text b ++ file_text bs.
+Proof. reflexivity. Qed.
+
+Lemma lift_flush : forall bs, nonblank_head bs ->
+  head_is (fun c => mem c WS) (file_text bs) = false ->
+  (forall a, stmt bs a []) ->
+  forall a w, is_ws w = true -> stmt bs a w.
+Proof.
+  intros bs Hnb Hhead H0 a w Hw Hlic fuel Hf.
+  destruct w as [|c w'] eqn:Ew; [apply (H0 a); auto|]. rewrite <- Ew in *.
+  assert (Hne : w <> []) by (rewrite Ew; discriminate).
+  destruct fuel as [|f]; [lia|].
+  rewrite ents_flush by exact Hnb.
+  assert (Efl : flush (length a) (length w) = [mk_white (length a, length a + length w)])
+    by (rewrite Ew; reflexivity).
+  rewrite Efl. simpl app.
+  pose proof (gn_white a w (file_text bs) Hne Hw Hhead) as G.
+  rewrite <- G. apply walk_step.
+  - rewrite !app_length. rewrite Ew. simpl. lia.
+  - rewrite G. cbn [mk_white e_span snd].
+    assert (Hs : a ++ w ++ file_text bs = (a ++ w) ++ [] ++ file_text bs)
+      by (rewrite <- app_assoc; reflexivity).
+    rewrite Hs, <- app_length. apply (H0 (a ++ w)).
+    + cbn [length]. rewrite Nat.add_0_r, app_length. exact Hlic.
+    + rewrite <- Hs. rewrite !app_length in *. rewrite Ew in *. simpl in *. lia.
+Qed.
+
+(* from offset 2 on the License rule does not apply *)
+Lemma license_ok_far : forall bs off, 2 <= off -> license_okb off bs = true.
+Proof.
+  induction bs as [|[x|body|[[body iw]|] ws1 name ws2 q v ws3|d] rest IH]; intros off H; try reflexivity.
+  - cbn [license_okb]. apply IH. lia.
+  - cbn [license_okb]. replace (off <? 2) with false by (symmetry; apply Nat.ltb_ge; exact H). reflexivity.
+Qed.
+
+(* the whitespace blocks at the head of the rest *)
+Lemma file_text_lead : forall bs, file_text bs = lead_ws bs ++ file_text (drop_ws bs).
+Proof.
+  induction bs as [|[x|body|pre ws1 name ws2 q v ws3|d] rest IH]; try reflexivity.
+  rewrite file_text_cons. cbn [text lead_ws drop_ws]. rewrite IH, app_assoc. reflexivity.
+Qed.
+
+Lemma lead_ws_is_ws : forall bs, Forall legal_block bs -> is_ws (lead_ws bs) = true.
+Proof.
+  induction bs as [|[x|body|pre ws1 name ws2 q v ws3|d] rest IH]; intros H; try reflexivity.
+  inversion H as [|b' r' Hb Hr]; subst. cbn [lead_ws]. unfold is_ws. rewrite forallb_app.
+  unfold legal_block in Hb. cbn [legal_blockb] in Hb. apply andb_true_iff in Hb.
+  destruct Hb as [_ Hb]. unfold is_ws in Hb. rewrite Hb. apply IH. exact Hr.
+Qed.
+
+Lemma drop_ws_legal : forall bs, Forall legal_block bs -> Forall legal_block (drop_ws bs).
+Proof.
+  induction bs as [|[x|body|pre ws1 name ws2 q v ws3|d] rest IH]; intros H; try exact H.
+  inversion H; subst. cbn [drop_ws]. apply IH. assumption.
+Qed.
+
+Lemma drop_ws_nonblank : forall bs, nonblank_head (drop_ws bs).
+Proof. induction bs as [|[x|body|pre ws1 name ws2 q v ws3|d] rest IH]; simpl; auto. Qed.
+
+(* a block that is not whitespace starts with < *)
+Lemma nonblank_text_head : forall bs, Forall legal_block bs -> nonblank_head bs ->
+  bs = [] \/ exists y, file_text bs = 60%N :: y.
+Proof.
+  intros [|[x|body|pre ws1 name ws2 q v ws3|d] rest] Hleg Hnb; [left; reflexivity|contradiction| | |]; right.
+  - rewrite file_text_cons. cbn [text]. destruct (comment_head body (file_text rest)) as [y Ey].
+    rewrite Ey. eexists. reflexivity.
+  - rewrite file_text_cons. cbn [text]. destruct pre as [[body iw]|].
+    + cbn [pre_text]. rewrite <- !app_assoc.
+      destruct (comment_head body (iw ++ decl_text ws1 name ws2 q v ws3 ++ file_text rest)) as [y Ey].
+      rewrite Ey. eexists. reflexivity.
+    + cbn [pre_text app]. destruct (decl_head ws1 name ws2 q v ws3 (file_text rest)) as [y Ey].
+      rewrite Ey. eexists. reflexivity.
+  - rewrite file_text_cons. cbn [text]. destruct (pe_head d (file_text rest)) as [y Ey].
+    rewrite Ey. eexists. reflexivity.
+Qed.
+
+Lemma nonblank_head_ws : forall bs, Forall legal_block bs -> nonblank_head bs ->
+  head_is (fun c => mem c WS) (file_text bs) = false.
+Proof.
+  intros bs H1 H2. destruct (nonblank_text_head bs H1 H2) as [->|[y ->]]; reflexivity.
+Qed.
+
+(* what follows a standalone comment and its whitespace is not a declaration: the key
+   expression fails there *)
+Lemma not_bare_no_key : forall bs, Forall legal_block bs -> nonblank_head bs ->
+  bare_entity_head bs = false ->
+  forall P : str, omatch rx_dtd_key (P ++ file_text bs) (length P) = None.
+Proof.
+  intros [|[x|body|pre ws1 name ws2 q v ws3|d] rest] Hleg Hnb Hbare P; [|contradiction| | |].
+  - apply omatch_key_none. reflexivity.
+  - apply omatch_key_none. rewrite file_text_cons. cbn [text].
+    destruct (comment_head body (file_text rest)) as [y Ey]. rewrite Ey. reflexivity.
+  - destruct pre as [[body iw]|]; [|discriminate]. apply omatch_key_none.
+    rewrite file_text_cons. cbn [text pre_text]. rewrite <- !app_assoc.
+    destruct (comment_head body (iw ++ decl_text ws1 name ws2 q v ws3 ++ file_text rest)) as [y Ey].
+    rewrite Ey. reflexivity.
+  - rewrite file_text_cons. cbn [text]. apply omatch_key_none_pe.
+    inversion Hleg as [|b' r' Hb _]; subst. exact Hb.
+Qed.
+
+Lemma text_nonempty : forall b, legal_block b -> 1 <= length (text b).
+Proof.
+  intros [x|body|pre ws1 name ws2 q v ws3|d] H; cbn [text].
+  - unfold legal_block in H. cbn [legal_blockb] in H. apply andb_true_iff in H. destruct H as [H _].
+    destruct x; [discriminate|simpl; lia].
+  - rewrite comment_text_length. lia.
+  - rewrite app_length. unfold decl_text, ENT. rewrite app_length. simpl. lia.
+  - rewrite pe_text_length. lia.
+Qed.
+
+Lemma walk_ents : forall bs, Forall legal_block bs -> separatedb bs = true ->
+  forall a w, is_ws w = true -> stmt bs a w.
+Proof.
+  induction bs as [|b rest IH]; intros Hleg Hsep.
+  - apply lift_flush; [exact I|reflexivity|].
+    intros a _ fuel Hf. simpl. apply walk_loop_done. rewrite !app_length. simpl. lia.
+  - inversion Hleg as [|b' rest' Hb Hrest]; subst b' rest'.
+    destruct b as [x|body|pre ws1 name ws2 q v ws3|d].
+    + (* whitespace: joins what is pending *)
+      intros a w Hw Hlic fuel Hf. simpl in Hsep.
+      unfold legal_block in Hb. cbn [legal_blockb] in Hb. apply andb_true_iff in Hb. destruct Hb as [Hx1 Hx2].
+      assert (Hs : a ++ w ++ file_text (BBlank x :: rest) = a ++ (w ++ x) ++ file_text rest).
+      { rewrite file_text_cons. simpl text. rewrite <- app_assoc. reflexivity. }
+      simpl ents. rewrite Hs in *. rewrite <- app_length. apply (IH Hrest Hsep); auto.
+      * unfold is_ws in *. rewrite forallb_app, Hw, Hx2. reflexivity.
+      * cbn [license_okb] in Hlic. rewrite app_length, Nat.add_assoc. exact Hlic.
+    + (* a standalone comment *)
+      unfold legal_block in Hb. cbn [legal_blockb] in Hb.
+      simpl in Hsep. apply andb_true_iff in Hsep. destruct Hsep as [Hnext Hsep].
+      assert (Hhd : head_is (fun c => mem c WS) (file_text (BComment body :: rest)) = false).
+      { rewrite file_text_cons. cbn [text]. destruct (comment_head body (file_text rest)) as [y Ey].
+        rewrite Ey. reflexivity. }
+      apply lift_flush; [exact I|exact Hhd|].
+      intros a _ fuel Hf. destruct fuel as [|f]; [lia|].
+      rewrite file_text_cons in *. cbn [text] in *. cbn [app] in *.
+      set (W := lead_ws rest). set (Y := file_text (drop_ws rest)).
+      assert (Er : file_text rest = W ++ Y) by apply file_text_lead.
+      assert (HW : is_ws W = true) by (apply lead_ws_is_ws; exact Hrest).
+      assert (HY : head_is (fun c => mem c WS) Y = false).
+      { apply nonblank_head_ws; [apply drop_ws_legal; exact Hrest|apply drop_ws_nonblank]. }
+      assert (Hn : 2 <= count_char 10%N W \/
+                   forall P : str, omatch rx_dtd_key (P ++ Y) (length P) = None).
+      { unfold comment_next_ok in Hnext. apply orb_true_iff in Hnext. destruct Hnext as [H|H].
+        - left. apply Nat.leb_le. exact H.
+        - right. apply not_bare_no_key; [apply drop_ws_legal; exact Hrest|apply drop_ws_nonblank|].
+          apply negb_true_iff. exact H. }
+      pose proof (gn_comment a body W Y Hb HW HY Hn) as G. rewrite <- Er in G.
+      cbn [length ents flush app]. rewrite !Nat.add_0_r. rewrite <- G. apply walk_step.
+      * rewrite !app_length, comment_text_length. lia.
+      * rewrite G. cbn [mk_comment e_span snd].
+        assert (Hs : a ++ comment_text body ++ file_text rest =
+                     (a ++ comment_text body) ++ [] ++ file_text rest)
+          by (rewrite <- app_assoc; reflexivity).
+        rewrite Hs, <- app_length. change 0 with (length (@nil N)).
+        apply (IH Hrest Hsep); [reflexivity| |].
+        -- apply license_ok_far. rewrite app_length, comment_text_length. lia.
+        -- rewrite <- Hs. rewrite !app_length, comment_text_length in *. lia.
+    + (* an entity declaration *)
+      unfold legal_block in Hb. cbn [legal_blockb] in Hb. apply andb_true_iff in Hb.
+      destruct Hb as [Hpre Hdecl]. simpl in Hsep.
+      assert (Hhd : head_is (fun c => mem c WS)
+                      (file_text (BEntity pre ws1 name ws2 q v ws3 :: rest)) = false).
+      { apply nonblank_head_ws; [exact Hleg|exact I]. }
+      apply lift_flush; [exact I|exact Hhd|].
+      intros a Hlic fuel Hf. destruct fuel as [|f]; [lia|].
+      rewrite file_text_cons in *. cbn [text] in *. cbn [app] in *.
+      assert (Hs0 : a ++ (pre_text pre ++ decl_text ws1 name ws2 q v ws3) ++ file_text rest =
+                    a ++ pre_text pre ++ decl_text ws1 name ws2 q v ws3 ++ file_text rest)
+        by (rewrite <- app_assoc; reflexivity).
+      rewrite Hs0 in *.
+      assert (Hl : forall body iw, pre = Some (body, iw) ->
+                   (length a <? 2) && contains s_License body = false).
+      { intros body iw E. subst pre. cbn [license_okb length] in Hlic. rewrite Nat.add_0_r in Hlic.
+        apply negb_true_iff in Hlic. exact Hlic. }
+      pose proof (gn_entity a pre ws1 name ws2 q v ws3 (file_text rest) Hpre Hdecl Hl) as G.
+      cbn [length ents flush app]. rewrite !Nat.add_0_r. rewrite <- G. apply walk_step.
+      * rewrite !app_length. pose proof (decl_text_length ws1 name ws2 q v ws3 0) as HL.
+        unfold key_end in HL. lia.
+      * rewrite G. unfold entity_entry. cbn [e_span snd].
+        set (A0 := a ++ pre_text pre ++ decl_text ws1 name ws2 q v ws3).
+        assert (Hs2 : a ++ pre_text pre ++ decl_text ws1 name ws2 q v ws3 ++ file_text rest
+                      = A0 ++ [] ++ file_text rest) by (unfold A0; norm_app; reflexivity).
+        assert (El : key_end ws1 name ws2 v ws3 (length a + length (pre_text pre)) = length A0).
+        { unfold A0. rewrite <- (decl_text_length ws1 name ws2 q v ws3), !app_length. lia. }
+        rewrite Hs2, El. change 0 with (length (@nil N)).
+        apply (IH Hrest Hsep); [reflexivity| |].
+        -- apply license_ok_far. rewrite <- El. unfold key_end. cbn [length]. lia.
+        -- assert (Hlt : length a < length A0) by (rewrite <- El; unfold key_end; lia).
+           rewrite Hs2 in Hf. clear - Hf Hlt. rewrite !app_length in *. simpl in *. lia.
+    + (* a parameter entity *)
+      unfold legal_block in Hb. cbn [legal_blockb] in Hb.
+      simpl in Hsep. apply andb_true_iff in Hsep. destruct Hsep as [Hnext Hsep].
+      assert (Hhd : head_is (fun c => mem c WS) (file_text (BPE d :: rest)) = false).
+      { apply nonblank_head_ws; [exact Hleg|exact I]. }
+      apply lift_flush; [exact I|exact Hhd|].
+      intros a _ fuel Hf. destruct fuel as [|f]; [lia|].
+      rewrite file_text_cons in *. cbn [text] in *. cbn [app] in *.
+      pose proof (gn_pe a d (file_text rest) Hb Hnext) as G.
+      pose proof (pe_text_length d) as HL.
+      cbn [length ents flush app]. rewrite !Nat.add_0_r. rewrite <- G. apply walk_step.
+      * rewrite !app_length. lia.
+      * rewrite G. cbn [pe_entry e_span snd].
+        assert (Hs : a ++ pe_text d ++ file_text rest = (a ++ pe_text d) ++ [] ++ file_text rest)
+          by (rewrite <- app_assoc; reflexivity).
+        rewrite Hs, <- app_length. change 0 with (length (@nil N)).
+        apply (IH Hrest Hsep); [reflexivity| |].
+        -- apply license_ok_far. rewrite app_length. lia.
+        -- rewrite <- Hs. rewrite !app_length in *. lia.
+Qed.
+
+(* ---- the block theorem ---------------------------------------------------------------------------- *)
+Theorem blocks_dtd : forall bs : list block,
+  Forall legal_block bs -> adjacent_ok bs ->
+  walk_dtd (file_text bs) = Ok (entries_of bs).
+Proof.
+  intros bs Hleg Hadj. unfold adjacent_ok, adjacent_okb in Hadj. apply andb_true_iff in Hadj.
+  destruct Hadj as [Hsep Hlic]. unfold walk_dtd, walk, entries_of.
+  apply (walk_ents bs Hleg Hsep [] [] eq_refl Hlic). simpl. lia.
+Qed.
+
+(* ---- the byte order mark --------------------------------------------------------------------------- *)
+Lemma walk_mark : forall n s, head_is (N.eqb bom) s = true -> 1 < length s ->
+  walk_loop (stateless gn_dtd) (S n) tt s 0 = walk_loop (stateless gn_dtd) (S n) tt s 1.
+Proof.
+  intros n s Hm Hl. rewrite !walk_loop_S.
+  replace (0 <? length s) with true by (symmetry; apply Nat.ltb_lt; lia).
+  replace (1 <? length s) with true by (symmetry; apply Nat.ltb_lt; lia).
+  unfold stateless. rewrite (gn_dtd_mark s Hm). reflexivity.
+Qed.
+
+Lemma file_text_nonempty : forall b rest, legal_block b -> 1 <= length (file_text (b :: rest)).
+Proof.
+  intros b rest H. rewrite file_text_cons, app_length. pose proof (text_nonempty b H). lia.
+Qed.
+
+(* a mark in front: DTDParser.getNext skips it at offset 0, every span is one further; the
+   file that consists of the mark only gives the zero-width Junk (1, 1) *)
+Theorem blocks_dtd_bom : forall (mark : bool) (bs : list block),
+  Forall legal_block bs -> adjacent_ok_bom mark bs ->
+  walk_dtd (file_text_bom mark bs) = Ok (entries_of_bom mark bs).
+Proof.
+  intros mark bs Hleg Hadj. unfold adjacent_ok_bom in Hadj. apply andb_true_iff in Hadj.
+  destruct Hadj as [Hsep Hlic]. destruct mark.
+  - destruct bs as [|b rest]; [vm_compute; reflexivity|].
+    unfold entries_of_bom, file_text_bom, walk_dtd, walk.
+    inversion Hleg as [|b' r' Hb Hrest]; subst b' r'.
+    pose proof (file_text_nonempty b rest Hb) as Hlen.
+    rewrite walk_mark; [|reflexivity|rewrite app_length; simpl length; lia].
+    apply (walk_ents (b :: rest) Hleg Hsep [bom] [] eq_refl Hlic).
+    rewrite !app_length. simpl length. lia.
+  - unfold entries_of_bom, file_text_bom, walk_dtd, walk. cbn [app].
+    apply (walk_ents bs Hleg Hsep [] [] eq_refl Hlic). simpl. lia.
+Qed.
+
+(* ---- the records of a file -------------------------------------------------------------------------- *)
+(* name, value between the quotes, text of the attached comment (with <!-- and -->); for a
+   parameter entity the value is the quoted text WITH its quotes, as the implementation has it *)
+Fixpoint records_of (bs : list block) : list C02Blocks.record :=
+  match bs with
+  | [] => []
+  | BEntity pre _ name _ _ v _ :: rest =>
+      (name, v, match pre with Some (body, _) => Some (comment_text body) | None => None end)
+      :: records_of rest
+  | BPE d :: rest => (pe_name d, pe_q d :: pe_v d ++ [pe_q d], None) :: records_of rest
+  | _ :: rest => records_of rest
+  end.
+
+Fixpoint comments_of (bs : list block) : list str :=
+  match bs with
+  | [] => []
+  | BComment body :: rest => comment_text body :: comments_of rest
+  | _ :: rest => comments_of rest
+  end.
+
+Lemma flush_no : forall k off w, k <> KWhitespace -> filter (C02Blocks.is_kind k) (flush off w) = [].
+Proof. intros k off [|w] H; [reflexivity|]. destruct k; try reflexivity. contradiction. Qed.
+
+Lemma triple_eq : forall (x x' y y' : str) (z : option str), x = x' -> y = y' -> (x, y, z) = (x', y', z).
+Proof. intros; subst; reflexivity. Qed.
+
+Lemma slice_at : forall (P b c : str) i j, i = length P -> j = length P + length b ->
+  slice (P ++ b ++ c) i j = b.
+Proof. intros; subst. apply slice_mid. Qed.
+
+Lemma ents_views : forall bs (a w : str),
+  let s := a ++ w ++ file_text bs in
+  map (C02Blocks.entity_record s)
+      (filter (C02Blocks.is_kind KEntity) (ents (length a) (length w) bs)) = records_of bs /\
+  map (fun e => C02Blocks.span_text s (e_span e))
+      (filter (C02Blocks.is_kind KComment) (ents (length a) (length w) bs)) = comments_of bs /\
+  filter (C02Blocks.is_kind KJunk) (ents (length a) (length w) bs) = [].
+Proof.
+  induction bs as [|b rest IH]; intros a w s.
+  - simpl ents. rewrite !flush_no by discriminate. repeat split.
+  - destruct b as [x|body|pre ws1 name ws2 q v ws3|d].
+    + assert (Hs : s = a ++ (w ++ x) ++ file_text rest).
+      { unfold s. rewrite file_text_cons. cbn [text]. rewrite <- app_assoc. reflexivity. }
+      simpl ents. rewrite <- app_length, Hs. apply IH.
+    + set (A0 := a ++ w ++ comment_text body).
+      assert (Hs : s = A0 ++ [] ++ file_text rest).
+      { unfold s, A0. rewrite file_text_cons. cbn [text]. norm_app. reflexivity. }
+      assert (El : length a + length w + length (comment_text body) = length A0)
+        by (unfold A0; rewrite !app_length; lia).
+      destruct (IH A0 []) as [I1 [I2 I3]]. rewrite <- Hs in I1, I2.
+      change (length (@nil N)) with 0 in I1, I2, I3.
+      cbn [ents]. rewrite !filter_app, !flush_no by discriminate. rewrite El.
+      cbn [app filter C02Blocks.is_kind mk_comment e_kind map e_span]. rewrite I1, I2, I3.
+      split; [reflexivity|split; [|reflexivity]]. cbn [comments_of]. f_equal.
+      unfold C02Blocks.span_text. cbn [fst snd]. unfold s. rewrite file_text_cons. cbn [text].
+      replace (a ++ w ++ comment_text body ++ file_text rest)
+        with ((a ++ w) ++ comment_text body ++ file_text rest) by (norm_app; reflexivity).
+      apply slice_at; [rewrite app_length; reflexivity|rewrite <- El, app_length; lia].
+    + set (D := decl_text ws1 name ws2 q v ws3).
+      set (A0 := a ++ w ++ pre_text pre ++ D).
+      assert (Hs : s = A0 ++ [] ++ file_text rest).
+      { unfold s, A0, D. rewrite file_text_cons. cbn [text]. norm_app. reflexivity. }
+      assert (Ek : length a + length w + length (pre_text pre) = length (a ++ w ++ pre_text pre))
+        by (rewrite !app_length; lia).
+      assert (El : key_end ws1 name ws2 v ws3 (length a + length w + length (pre_text pre)) = length A0).
+      { unfold A0, D. rewrite <- (decl_text_length ws1 name ws2 q v ws3), !app_length. lia. }
+      destruct (IH A0 []) as [I1 [I2 I3]]. rewrite <- Hs in I1, I2.
+      change (length (@nil N)) with 0 in I1, I2, I3.
+      cbn [ents]. rewrite !filter_app, !flush_no by discriminate. rewrite El.
+      unfold entity_entry at 1 2 3.
+      cbn [app filter C02Blocks.is_kind e_kind map]. rewrite I1, I2, I3.
+      split; [|split; reflexivity]. cbn [records_of]. f_equal.
+      unfold C02Blocks.entity_record. cbn [e_key e_val e_pre C02Blocks.opt_text].
+      unfold C02Blocks.span_text. cbn [fst snd].
+      set (K0 := a ++ w ++ pre_text pre) in *.
+      assert (S1 : slice s (length a + length w + length (pre_text pre) + 8 + length ws1)
+                     (length a + length w + length (pre_text pre) + 8 + length ws1 + length name) = name).
+      { unfold s. rewrite file_text_cons. cbn [text]. fold D. unfold D. rewrite <- app_assoc, decl_text_app.
+        replace (a ++ w ++ pre_text pre ++ ENT ++ ws1 ++ name ++ ws2 ++ q :: v ++ q :: ws3 ++ 62%N :: file_text rest)
+          with ((K0 ++ ENT ++ ws1) ++ name ++ (ws2 ++ q :: v ++ q :: ws3 ++ 62%N :: file_text rest))
+          by (unfold K0; norm_app; reflexivity).
+        apply slice_at; rewrite !app_length, <- Ek; unfold ENT; simpl length; lia. }
+      assert (S2 : slice s (length a + length w + length (pre_text pre) + 8 + length ws1 + length name + length ws2 + 1)
+                     (length a + length w + length (pre_text pre) + 8 + length ws1 + length name + length ws2 + 1 + length v) = v).
+      { unfold s. rewrite file_text_cons. cbn [text]. fold D. unfold D. rewrite <- app_assoc, decl_text_app.
+        replace (a ++ w ++ pre_text pre ++ ENT ++ ws1 ++ name ++ ws2 ++ q :: v ++ q :: ws3 ++ 62%N :: file_text rest)
+          with ((K0 ++ ENT ++ ws1 ++ name ++ ws2 ++ [q]) ++ v ++ (q :: ws3 ++ 62%N :: file_text rest))
+          by (unfold K0; norm_app; reflexivity).
+        apply slice_at; repeat (rewrite ?app_length; cbn [length]); rewrite <- Ek; unfold ENT;
+          cbn [length]; lia. }
+      rewrite S1, S2. f_equal.
+      destruct pre as [[body iw]|]; [|reflexivity].
+      cbn [option_map]. f_equal. cbn [fst snd].
+      unfold s. rewrite file_text_cons. cbn [text pre_text].
+      fold D.
+      replace (a ++ w ++ ((comment_text body ++ iw) ++ D) ++ file_text rest)
+        with ((a ++ w) ++ comment_text body ++ (iw ++ D ++ file_text rest)) by (norm_app; reflexivity).
+      apply slice_at; rewrite app_length; lia.
+    + set (A0 := a ++ w ++ pe_text d).
+      assert (Hs : s = A0 ++ [] ++ file_text rest).
+      { unfold s, A0. rewrite file_text_cons. cbn [text]. norm_app. reflexivity. }
+      assert (El : length a + length w + length (pe_text d) = length A0)
+        by (unfold A0; rewrite !app_length; lia).
+      destruct (IH A0 []) as [I1 [I2 I3]]. rewrite <- Hs in I1, I2.
+      change (length (@nil N)) with 0 in I1, I2, I3.
+      cbn [ents]. rewrite !filter_app, !flush_no by discriminate. rewrite El.
+      unfold pe_entry at 1 2 3.
+      cbn [app filter C02Blocks.is_kind e_kind map]. rewrite I1, I2, I3.
+      split; [|split; reflexivity]. cbn [records_of]. f_equal.
+      unfold C02Blocks.entity_record. cbn [e_key e_val e_pre C02Blocks.opt_text option_map].
+      unfold C02Blocks.span_text, pe_val_span, pe_key_span. cbn [fst snd].
+      set (K0 := a ++ w) in *.
+      assert (Ek : length a + length w = length K0) by (unfold K0; rewrite app_length; reflexivity).
+      assert (Es : s = K0 ++ pe_text d ++ file_text rest).
+      { unfold s, K0. rewrite file_text_cons. cbn [text]. norm_app. reflexivity. }
+      rewrite Es, pe_text_app.
+      apply triple_eq.
+      * replace (K0 ++ ENT ++ pe_ws1 d ++ 37%N :: pe_ws2 d ++ pe_name d ++ pe_ws3 d ++ SYSTEM ++ pe_ws4 d ++
+                 pe_q d :: pe_v d ++ pe_q d :: pe_ws5 d ++ 62%N :: pe_ws6 d ++ 37%N :: pe_ref d ++ 59%N ::
+                 (pe_tail_text d ++ file_text rest))
+          with ((K0 ++ ENT ++ pe_ws1 d ++ 37%N :: pe_ws2 d) ++ pe_name d ++ (pe_ws3 d ++ SYSTEM ++ pe_ws4 d ++
+                 pe_q d :: pe_v d ++ pe_q d :: pe_ws5 d ++ 62%N :: pe_ws6 d ++ 37%N :: pe_ref d ++ 59%N ::
+                 (pe_tail_text d ++ file_text rest)))
+          by (norm_app; reflexivity).
+        apply slice_at; repeat (rewrite ?app_length; cbn [length]); rewrite <- Ek; unfold ENT;
+          cbn [length]; lia.
+      * replace (K0 ++ ENT ++ pe_ws1 d ++ 37%N :: pe_ws2 d ++ pe_name d ++ pe_ws3 d ++ SYSTEM ++ pe_ws4 d ++
+                 pe_q d :: pe_v d ++ pe_q d :: pe_ws5 d ++ 62%N :: pe_ws6 d ++ 37%N :: pe_ref d ++ 59%N ::
+                 (pe_tail_text d ++ file_text rest))
+          with ((K0 ++ ENT ++ pe_ws1 d ++ 37%N :: pe_ws2 d ++ pe_name d ++ pe_ws3 d ++ SYSTEM ++ pe_ws4 d) ++
+                 (pe_q d :: pe_v d ++ [pe_q d]) ++ (pe_ws5 d ++ 62%N :: pe_ws6 d ++ 37%N :: pe_ref d ++ 59%N ::
+                 (pe_tail_text d ++ file_text rest)))
+          by (norm_app; reflexivity).
+        apply slice_at; repeat (rewrite ?app_length; cbn [length]); rewrite <- Ek; unfold ENT, SYSTEM;
+          cbn [length]; lia.
+Qed.
+
+(* the entities of the walk are exactly the records (name, value, attached comment), in
+   order; the standalone comments are exactly the comment blocks; there is no Junk entry *)
+Theorem C02_roundtrip_dtd_multi : forall bs : list block,
+  Forall legal_block bs -> adjacent_ok bs ->
+  exists es, walk_dtd (file_text bs) = Ok es /\
+    map (C02Blocks.entity_record (file_text bs)) (filter (C02Blocks.is_kind KEntity) es) = records_of bs /\
+    map (fun e => C02Blocks.span_text (file_text bs) (e_span e)) (filter (C02Blocks.is_kind KComment) es) =
+      comments_of bs /\
+    filter (C02Blocks.is_kind KJunk) es = [].
+Proof.
+  intros bs Hleg Hadj. exists (entries_of bs). split; [apply blocks_dtd; auto|].
+  exact (ents_views bs [] []).
+Qed.
+
+(* the same behind a byte order mark (a non-empty file) *)
+Theorem C02_roundtrip_dtd_multi_bom : forall bs : list block,
+  Forall legal_block bs -> adjacent_ok_bom true bs -> bs <> [] ->
+  let s := file_text_bom true bs in
+  exists es, walk_dtd s = Ok es /\
+    map (C02Blocks.entity_record s) (filter (C02Blocks.is_kind KEntity) es) = records_of bs /\
+    map (fun e => C02Blocks.span_text s (e_span e)) (filter (C02Blocks.is_kind KComment) es) =
+      comments_of bs /\
+    filter (C02Blocks.is_kind KJunk) es = [].
+Proof.
+  intros bs Hleg Hadj Hne s. exists (entries_of_bom true bs).
+  split; [apply blocks_dtd_bom; auto|].
+  destruct bs as [|b rest]; [contradiction|]. exact (ents_views (b :: rest) [bom] []).
+Qed.
+
+Example ex_dtd_records :
+  let bs := [ex_b; ex_c; ex_b2; ex_e2; ex_e1; ex_c; ex_e3; ex_pe2] in
+  Forall legal_block bs /\ adjacent_ok bs /\
+  records_of bs = [(A [102; 111; 111; 46; 98; 97; 114], A [120; 34; 60; 121; 62; 38; 37; 122; 59],
+                    Some (A [60; 33; 45; 45; 32; 99; 32; 45; 32; 100; 32; 45; 45; 62]));
+                   (A [97], A [98], None);
+                   (A [95], [], Some (A [60; 33; 45; 45; 45; 120; 45; 121; 45; 45; 62]));
+                   (A [120], A [39; 39], None)] /\
+  comments_of bs = [A [60; 33; 45; 45; 32; 115; 116; 97; 110; 100; 32; 45; 45; 62];
+                    A [60; 33; 45; 45; 32; 115; 116; 97; 110; 100; 32; 45; 45; 62]].
+Proof. split; [repeat constructor|]. split; [vm_compute; reflexivity|]. split; reflexivity. Qed.
